@@ -111,6 +111,10 @@ def check_batch(ctx, prop, fl, plat, scs, on_result=None, depth=0):
     """run a batch, report violations (witness minimised to the single scenario when it reproduces alone), re-run what a crash
     prevented from running. on_result(sc, oracle_result) is called for every scenario that was replayed."""
     res = run_batch(fl, plat, scs)
+    if not res.timed_out and res.rc in (-15, -9, -2, -1):
+        # SIGTERM/SIGKILL/SIGINT/SIGHUP do not come from SimGrid nor from the watchdog: somebody else killed the process
+        ctx.inconclusive("harness process killed by an external signal (%s)" % res.rc)
+        return
     js = judge(prop, res, scs)
     if not res.timed_out and all(j.status == "not-run" for j in js):
         raise core.HarnessFailure("the harness died before running anything: rc=%s %s" % (res.rc, (res.err or "")[-800:]))
